@@ -10,6 +10,8 @@ Units (all fail-closed: anything not recognised raises TranslateError):
 Shape-only operations (unsqueeze / expand / repeat / reshape, `.shape` arithmetic) are skipped:
 batching is covered by the correspondence check, not by the translator."""
 import ast
+
+from harness.translate.astnorm import fold_tail_bindings
 import os
 from fractions import Fraction
 
@@ -155,6 +157,41 @@ def _body(fn):
     if body and isinstance(body[0], ast.Expr) and isinstance(body[0].value, ast.Constant) \
             and isinstance(body[0].value.value, str):
         body = body[1:]
+    body = fold_tail_bindings(body)     # index names / tuples of pieces bound just before the return are read through
+    return _inline_shape_locals(body)
+
+
+class _SubstName(ast.NodeTransformer):
+    def __init__(self, name, expr):
+        self.name, self.expr = name, expr
+
+    def visit_Name(self, n):
+        if n.id == self.name and isinstance(n.ctx, ast.Load):
+            return ast.copy_location(ast.parse(ast.unparse(self.expr), mode="eval").body, n)
+        return n
+
+
+def _inline_shape_locals(body):
+    """`n = self.state_count`, `leading = (1,) * branch_lengths.dim()`: a local bound once to an expression that only
+    computes sizes stands for that expression (sizes do not change under the value operations read here)."""
+    body = list(body)
+    i = 0
+    while i < len(body):
+        st = body[i]
+        if isinstance(st, ast.Assign) and len(st.targets) == 1 and isinstance(st.targets[0], ast.Name) \
+                and _is_shape_expr(st.value) and not isinstance(st.value, ast.Name):
+            name = st.targets[0].id
+            stores = sum(1 for t in body for n in ast.walk(t)
+                         if isinstance(n, ast.Name) and n.id == name and isinstance(n.ctx, ast.Store))
+            if stores == 1 and not name.endswith("_shape") and name != "state_count":
+                rest = []
+                for t in body[i + 1:]:
+                    t2 = _SubstName(name, st.value).visit(ast.parse(ast.unparse(t)).body[0])
+                    ast.fix_missing_locations(t2)
+                    rest.append(t2)
+                body = body[:i] + rest
+                continue
+        i += 1
     return body
 
 
@@ -255,7 +292,7 @@ def jc69_p(fn):
         if b is not None:
             env.names[name] = b
         else:
-            v = f"v_{name}"
+            v = f"v_{len(env.lets) + 1}"
             env.lets.append((v, tr(st.value, env)))
             env.names[name] = ("expr", v)
     entries = _cat_entries(body[-1])
@@ -304,7 +341,7 @@ def gjc_p(fn):
                     raise TranslateError("GeneralJC69.p_t: two matrices")
                 mat = (tg.id, env.names[inner.id][1])
                 continue
-            v = f"v_{tg.id}"
+            v = f"v_{len(env.lets) + 1}"
             env.lets.append((v, tr(st.value, env)))
             env.names[tg.id] = ("expr", v)
         elif mat and _diag_target(tg, mat[0], True):
